@@ -1,8 +1,11 @@
 package sim
 
 import (
+	"crypto/sha256"
+	"encoding/binary"
 	"encoding/json"
 	"fmt"
+	"sort"
 
 	"go.sia.tech/core/consensus"
 	"go.sia.tech/core/types"
@@ -195,4 +198,179 @@ func LiveFC(cs consensus.State, e types.FileContractElement, seal func(*types.Bl
 	seal(&b)
 	err := consensus.ValidateBlock(cs, b, consensus.V1BlockSupplement{ExpiringFileContracts: []types.FileContractElement{copyFC(e)}})
 	return err == nil
+}
+
+// ---------------------------------------------------------------------------------------
+// Proof followers: a second style of client. The Store replaces every element a block touches by a copy taken from
+// the diffs; a follower never does: it holds bare state elements (leaf index + proof), taken once, and only ever
+// feeds them to UpdateElementProof of every later apply / revert update — the way a wallet tracks one output. A
+// lagging twin applies the very same update objects some blocks later (a second subscriber, a replay after a
+// restart), so an update object that is modified by being used, or an element that shares memory with it, shows
+// up as a difference between the twins or against the naive forest.
+
+type followOp struct {
+	au        *consensus.ApplyUpdate
+	ru        *consensus.RevertUpdate
+	numLeaves uint64 // leaf count after the operation
+	track     []types.StateElement
+	digest    [32]byte // of everything the leading follower held right after this operation
+}
+
+func (f *ProofFollower) digest() [32]byte {
+	h := sha256.New()
+	var b [8]byte
+	for _, k := range f.keys() {
+		binary.LittleEndian.PutUint64(b[:], k)
+		h.Write(b[:])
+		se := f.Held[k]
+		binary.LittleEndian.PutUint64(b[:], uint64(len(se.MerkleProof)))
+		h.Write(b[:])
+		for i := range se.MerkleProof {
+			h.Write(se.MerkleProof[i][:])
+		}
+	}
+	var out [32]byte
+	copy(out[:], h.Sum(nil))
+	return out
+}
+
+// ProofFollower holds state elements by leaf index.
+type ProofFollower struct{ Held map[uint64]types.StateElement }
+
+func (f *ProofFollower) keys() []uint64 {
+	ks := make([]uint64, 0, len(f.Held))
+	for k := range f.Held {
+		ks = append(ks, k)
+	}
+	sort.Slice(ks, func(i, j int) bool { return ks[i] < ks[j] })
+	return ks
+}
+
+func (f *ProofFollower) step(op followOp) {
+	for _, k := range f.keys() {
+		se := f.Held[k]
+		switch {
+		case k >= op.numLeaves:
+			delete(f.Held, k) // the leaf was removed by a revert
+			continue
+		case op.au != nil:
+			op.au.UpdateElementProof(&se)
+		case op.ru != nil:
+			op.ru.UpdateElementProof(&se)
+		}
+		f.Held[k] = se
+	}
+	for _, se := range op.track {
+		if _, ok := f.Held[se.LeafIndex]; !ok && se.LeafIndex < op.numLeaves {
+			f.Held[se.LeafIndex] = se.Copy()
+		}
+	}
+}
+
+// Followers is a leading follower and its lagging twin.
+type Followers struct {
+	Lead, Lag *ProofFollower
+	queue     []followOp
+	Depth     int // the twin catches up once this many operations are queued
+	Flushes   int
+}
+
+func NewFollowers(depth int) *Followers {
+	return &Followers{Lead: &ProofFollower{Held: map[uint64]types.StateElement{}}, Lag: &ProofFollower{Held: map[uint64]types.StateElement{}}, Depth: depth}
+}
+
+// StateElements lists a copy of every state element the store holds (live, spent, resolved, chain indices).
+func (s *Store) StateElements() []types.StateElement {
+	var out []types.StateElement
+	for _, e := range s.SC {
+		out = append(out, e.StateElement.Copy())
+	}
+	for _, e := range s.SF {
+		out = append(out, e.StateElement.Copy())
+	}
+	for _, e := range s.FC {
+		out = append(out, e.StateElement.Copy())
+	}
+	for _, e := range s.V2FC {
+		out = append(out, e.StateElement.Copy())
+	}
+	for _, e := range s.SpentSC {
+		out = append(out, e.StateElement.Copy())
+	}
+	for _, e := range s.SpentSF {
+		out = append(out, e.StateElement.Copy())
+	}
+	for _, e := range s.ResolvedFC {
+		out = append(out, e.StateElement.Copy())
+	}
+	for _, e := range s.ResolvedV2FC {
+		out = append(out, e.StateElement.Copy())
+	}
+	for _, e := range s.CI {
+		out = append(out, e.StateElement.Copy())
+	}
+	sort.Slice(out, func(i, j int) bool { return out[i].LeafIndex < out[j].LeafIndex })
+	return out
+}
+
+func (fw *Followers) push(op followOp) error {
+	fw.Lead.step(op)
+	op.digest = fw.Lead.digest()
+	fw.queue = append(fw.queue, op)
+	if len(fw.queue) >= fw.Depth {
+		return fw.Flush()
+	}
+	return nil
+}
+
+// Apply feeds an apply update to the leading follower (the twin gets it later) and starts tracking every element
+// of the store that is not tracked yet (with the proof the store holds for it after this block).
+func (fw *Followers) Apply(au consensus.ApplyUpdate, numLeaves uint64, st *Store) error {
+	return fw.push(followOp{au: &au, numLeaves: numLeaves, track: st.StateElements()})
+}
+
+// Revert feeds a revert update; numLeaves is the leaf count of the state reverted to.
+func (fw *Followers) Revert(ru consensus.RevertUpdate, numLeaves uint64) error {
+	return fw.push(followOp{ru: &ru, numLeaves: numLeaves})
+}
+
+// Flush lets the lagging twin apply the queued update objects and compares the twins.
+func (fw *Followers) Flush() error {
+	for i, op := range fw.queue {
+		fw.Lag.step(op)
+		// the twin must pass through exactly the proofs the first follower had after the same operation, also while
+		// it is behind (a later update that repairs the difference does not make the intermediate proofs valid)
+		if fw.Lag.digest() != op.digest {
+			behind := len(fw.queue) - i
+			fw.queue = nil
+			return fmt.Errorf("a follower that applies the same update objects %d operation(s) later gets different proofs than the follower that applied them at once (an update object was modified by being used, or shares memory with the elements it refreshed)", behind)
+		}
+	}
+	fw.queue = nil
+	fw.Flushes++
+	if len(fw.Lead.Held) != len(fw.Lag.Held) {
+		return fmt.Errorf("a follower that applied the same updates later tracks %d leaves, the first follower %d", len(fw.Lag.Held), len(fw.Lead.Held))
+	}
+	for _, k := range fw.Lead.keys() {
+		a, b := fw.Lead.Held[k], fw.Lag.Held[k]
+		if len(a.MerkleProof) != len(b.MerkleProof) {
+			return fmt.Errorf("leaf %d: the same update objects applied later give a proof of %d hashes, applied at once %d (an update was modified by being used)", k, len(b.MerkleProof), len(a.MerkleProof))
+		}
+		for i := range a.MerkleProof {
+			if a.MerkleProof[i] != b.MerkleProof[i] {
+				return fmt.Errorf("leaf %d: the same update objects applied later give a different proof (hash %d differs): an update was modified by being used", k, i)
+			}
+		}
+	}
+	return nil
+}
+
+// Verify compares every proof of the leading follower with the naive forest.
+func (fw *Followers) Verify(b *ref.Built) (int, error) {
+	for _, k := range fw.Lead.keys() {
+		if err := ProofEquals(fw.Lead.Held[k], b); err != nil {
+			return 0, fmt.Errorf("leaf %d followed only through UpdateElementProof: %v", k, err)
+		}
+	}
+	return len(fw.Lead.Held), nil
 }
